@@ -29,12 +29,23 @@ func init() {
 		fw.Register(&fw.Property{
 			ID: id, Level: "exploration", Rule: rule,
 			Cases: func(tier string) int {
+				n := 128
 				if tier == "thorough" {
-					return 4000
+					n = 4000
 				}
-				return 128
+				if id == "C08" {
+					n++ // the last case: > 20 000 retained records carried through an export/import
+				}
+				return n
 			},
-			Run:  func(c *fw.Ctx) { runRegistryHistory(c, id, rules) },
+			Run: func(c *fw.Ctx) {
+				if id == "C08" && ((c.Tier == "thorough" && c.Case == 4000) || (c.Tier != "thorough" && c.Case == 128)) {
+					c15CapCase(c, func(rule string) bool { return rule == "export-cap-counters" || rule == "export-cap-continuation" })
+					c.Count("prunes", 0)
+					return
+				}
+				runRegistryHistory(c, id, rules)
+			},
 			Need: need,
 			Assumptions: []string{"entity counts per history are small (<= 6 registrations per module, <= ~80 records each) so that every record ever accepted can be re-queried after every operation",
 				"single-signer transactions; nesting through real x/authz grants + MsgExec (depth 1-2)"},
